@@ -27,6 +27,8 @@ func litSet(w *ecs.World, e ecs.Entity, id ecs.ID, pl *plan) {
 		w.Set(e, id, &Tag{})
 	case kChild:
 		w.Set(e, id, &Child{P: newPayload(pl.pids[0])})
+	case kArr:
+		w.Set(e, id, mkArr(pl))
 	}
 }
 
@@ -48,6 +50,8 @@ func litAssign(w *ecs.World, e ecs.Entity, id ecs.ID, pl *plan) {
 		w.Assign(e, ecs.Component{ID: id, Comp: &Tag{}})
 	case kChild:
 		w.Assign(e, ecs.Component{ID: id, Comp: &Child{P: newPayload(pl.pids[0])}})
+	case kArr:
+		w.Assign(e, ecs.Component{ID: id, Comp: mkArr(pl)})
 	}
 }
 
@@ -69,6 +73,8 @@ func litNewWith(w *ecs.World, id ecs.ID, pl *plan) ecs.Entity {
 		return w.NewEntityWith(ecs.Component{ID: id, Comp: &Tag{}})
 	case kChild:
 		return w.NewEntityWith(ecs.Component{ID: id, Comp: &Child{P: newPayload(pl.pids[0])}})
+	case kArr:
+		return w.NewEntityWith(ecs.Component{ID: id, Comp: mkArr(pl)})
 	}
 	panic("bad kind")
 }
@@ -95,6 +101,8 @@ func litBuilderNew(w *ecs.World, id ecs.ID, pl *plan, withTarget bool, target ec
 			return ecs.NewBuilderWith(w, ecs.Component{ID: id, Comp: &Child{P: newPayload(pl.pids[0])}}).WithRelation(id).New(target)
 		}
 		return ecs.NewBuilderWith(w, ecs.Component{ID: id, Comp: &Child{P: newPayload(pl.pids[0])}}).New()
+	case kArr:
+		return ecs.NewBuilderWith(w, ecs.Component{ID: id, Comp: mkArr(pl)}).New()
 	}
 	panic("bad kind")
 }
